@@ -6,6 +6,7 @@ import (
 	"fmt"
 	"net/http"
 	"net/http/httptest"
+	"time"
 
 	connect "github.com/bufbuild/connect-go"
 	"github.com/bufbuild/connect-go/verifharness/internal/h"
@@ -288,6 +289,81 @@ func C01(r *h.Run) {
 				reqMsgs := [][]byte{seqPayload(rng, 3), {}, seqPayload(rng, 40), seqPayload(rng, 1)}
 				resMsgs := [][]byte{seqPayload(rng, 2), seqPayload(rng, 33), {}, seqPayload(rng, 5)}
 				runCfg(e2eCfg{Proto: proto, Codec: []string{"toy", "proto"}[fi%2], Compression: comp, Kind: kind, SendCompression: comp != "identity", MinBytes: 0, Via: via}, reqMsgs, resMsgs, "e2e_fragmented")
+			}
+		}
+	}
+	// lockstep exchanges over a real HTTP/2 connection: the client needs each answer before it
+	// sends the next message, so every message the handler Sends must actually leave the server,
+	// whether or not it was compressed (compress-min-bytes above and below the message size)
+	for _, proto := range protos {
+		for _, minBytes := range []int{0, 1024} {
+			for _, big := range []bool{false, true} {
+				var copts []connect.ClientOption
+				switch proto {
+				case "grpc":
+					copts = append(copts, connect.WithGRPC())
+				case "grpcweb":
+					copts = append(copts, connect.WithGRPCWeb())
+				}
+				copts = append(copts, connect.WithCodec(h.ToyCodec{}))
+				hopts := []connect.HandlerOption{connect.WithCodec(h.ToyCodec{}), connect.WithCompressMinBytes(minBytes)}
+				mux := http.NewServeMux()
+				mux.Handle("/verif.Svc/Echo", connect.NewBidiStreamHandler("/verif.Svc/Echo", func(_ context.Context, st *connect.BidiStream[h.Raw, h.Raw]) error {
+					for {
+						m, err := st.Receive()
+						if err != nil {
+							return nil
+						}
+						if err := st.Send(&h.Raw{B: append([]byte("re:"), m.B...)}); err != nil {
+							return err
+						}
+					}
+				}, hopts...))
+				srv := httptest.NewUnstartedServer(mux)
+				srv.EnableHTTP2 = true
+				srv.StartTLS()
+				client := connect.NewClient[h.Raw, h.Raw](srv.Client(), srv.URL+"/verif.Svc/Echo", copts...)
+				ctx, cancel := context.WithCancel(context.Background())
+				st := client.CallBidiStream(ctx)
+				var got, want [][]byte
+				stuck := -1
+				for k := 0; k < 4 && stuck < 0; k++ {
+					msg := seqPayload(rng, 3+k)
+					if big {
+						msg = bytes.Repeat(msg, 600) // above 1024 bytes
+					}
+					want = append(want, append([]byte("re:"), msg...))
+					if err := st.Send(&h.Raw{B: msg}); err != nil {
+						stuck = k
+						break
+					}
+					type res struct {
+						m   *h.Raw
+						err error
+					}
+					ch := make(chan res, 1)
+					go func() { m, err := st.Receive(); ch <- res{m, err} }()
+					select {
+					case x := <-ch:
+						if x.err != nil {
+							stuck = k
+						} else {
+							got = append(got, x.m.B)
+						}
+					case <-time.After(3 * time.Second):
+						stuck = k
+					}
+				}
+				cancel()
+				_ = st.CloseRequest()
+				_ = st.CloseResponse()
+				srv.Close()
+				in := map[string]any{"proto": proto, "handler_compress_min_bytes": minBytes, "message_bytes_about": map[bool]int{false: 5, true: 3000}[big], "pattern": "bidi over HTTP/2: Send one, Receive its answer, four times"}
+				r.Eval("e2e_lockstep", fmt.Sprint(proto, minBytes, big))
+				r.Sample("e2e_lockstep", map[string]any{"in": in, "answers_received": len(got)})
+				if stuck >= 0 || !bytesListEq(got, want) {
+					r.Fail(h.Failure{Key: "roundtrip/response-direction", Family: "e2e_lockstep", What: fmt.Sprintf("the answer to message %d did not arrive within 3s of the handler sending it (received %d of 4)", stuck+1, len(got)), Input: in, Expected: len(want), Actual: len(got)})
+				}
 			}
 		}
 	}
